@@ -425,6 +425,9 @@ impl Check for C11 {
         let mut case = gen_mode_graph_case(d, thorough, 30);
         let text = Text::new(case.input());
         let nm = case.modes.len();
+        if nm >= 2 && d.chance(40) {
+            case.extra = serde_json::json!({"scanner_mode_before": 1 + d.below(nm - 1)});
+        }
         let nops = 3 + d.below(if thorough { 30 } else { 18 });
         for _ in 0..nops {
             case.ops.push(match d.weighted(&[10, 8, 2, 2, 2]) {
@@ -473,7 +476,7 @@ impl Check for C11 {
             }
         }
         let mut st = CaseStats::default();
-        let scanner = match build_guarded(case, false)? {
+        let mut scanner = match build_guarded(case, false)? {
             Ok(s) => s,
             Err(_) => {
                 st.count("build_failed");
@@ -481,6 +484,14 @@ impl Check for C11 {
                 return Ok(st);
             }
         };
+        // the Scanner itself may have been left in any mode: iterators start in mode 0 regardless
+        if let Some(m) = case.extra.get("scanner_mode_before").and_then(|v| v.as_u64()) {
+            if (m as usize) < case.modes.len() {
+                use scnr::ScannerModeSwitcher;
+                scanner.set_mode(m as usize);
+                st.count("scanner_left_in_another_mode");
+            }
+        }
         let model = case.model();
         let n = text.len();
 
